@@ -75,11 +75,12 @@ add(Contract(
         # (1) the cache stays honest: inductive invariant over histories of definitions
         "HonestCache()",
         # (2) the class runs the code generated NOW for the directions that are switched on (unless the user
-        #     overrode the method in the class), whatever the cache held
+        #     overrode the method in the class), whatever the cache held - or keeps the generic drivers, which
+        #     follow the declaration by construction (the statement is about behaviour, not about speed)
         "implies(self.generate_for_pack and same(old(self.pkt_class.pack_impl), generic_pack()),"
-        "        same(self.pkt_class.pack_impl, codefn('pack', pack_code)))",
+        "        same(self.pkt_class.pack_impl, codefn('pack', pack_code)) or same(self.pkt_class.pack_impl, generic_pack()))",
         "implies(self.generate_for_unpack and same(old(self.pkt_class.unpack_impl), generic_unpack()),"
-        "        same(self.pkt_class.unpack_impl, codefn('unpack', unpack_code)))",
+        "        same(self.pkt_class.unpack_impl, codefn('unpack', unpack_code)) or same(self.pkt_class.unpack_impl, generic_unpack()))",
         # (3) and nothing is installed for a direction that is switched off or overridden
         "implies(not (self.generate_for_pack and same(old(self.pkt_class.pack_impl), generic_pack())),"
         "        same(self.pkt_class.pack_impl, old(self.pkt_class.pack_impl)))",
@@ -106,13 +107,6 @@ add(Contract(
     prefix_checks=_c15.prefix_checks,
     requires=_c15.requires, free_requires=_c15.free_requires,
     crash_invariant="HonestCache()", rely="HonestCache()",
-    ensures=[
-        "HonestCache()",
-        "implies(self.generate_for_pack and same(old(self.pkt_class.pack_impl), generic_pack()),"
-        "        same(self.pkt_class.pack_impl, codefn('pack', pack_code)) or same(self.pkt_class.pack_impl, generic_pack()))",
-        "implies(self.generate_for_unpack and same(old(self.pkt_class.unpack_impl), generic_unpack()),"
-        "        same(self.pkt_class.unpack_impl, codefn('unpack', unpack_code)) or same(self.pkt_class.unpack_impl, generic_unpack()))",
-        _c15.ensures[3], _c15.ensures[4],
-    ],
+    ensures=list(_c15.ensures),
     raises={},
     modifies=_c15.modifies, allocates=True, returns='none'))
